@@ -179,11 +179,15 @@ impl SourceView {
                 return Some(lines[idx]);
             }
         }
+        #[cfg(sourcemap_verif)]
+        crate::verif_hooks::yield_point(1);
 
         // fetched everything
         if self.processed_until.load(Ordering::Relaxed) > self.source.len() {
             return None;
         }
+        #[cfg(sourcemap_verif)]
+        crate::verif_hooks::yield_point(2);
 
         let mut lines = self.lines.lock().unwrap();
         let mut done = false;
